@@ -37,7 +37,7 @@ PLANS = {
         'assumptions': COMMON_ASSUMPTIONS + ['a call that does not return within 300000 ticks (correct code needs < 3000 on these sizes) is counted as non-terminating'],
         'expected_probes': ['pair_isomorphic', 'pair_equivalent_not_isomorphic', 'pair_inequivalent',
                             'same_language_different_reachable_count', 'has_unreachable', 'identical_objects', 'nontrivial', 'inplace_edit_between_calls', 'earlier_calls_on_a_twin'],
-        'technique': 'deterministic simulation: seeded search over pair-exploration schedules (PYTHONHASHSEED x renaming) under a simulated tick clock (bounded liveness); canonical-form oracle; minimised replay files; also object-lifetime histories inside each pristine interpreter (in-place edits of the live object between calls, earlier calls on twin objects) and the logging knob',
+        'technique': 'deterministic simulation: seeded search over pair-exploration schedules (PYTHONHASHSEED x renaming) under a simulated tick clock (bounded liveness); canonical-form oracle; minimised replay files; also object-lifetime histories inside each pristine interpreter (in-place edits of the live object between calls, earlier calls on twin objects) and the logging knob; second operand also derived from the live first one (same object, dfa_complement, shared transition map)',
         'level_text': 'seeded sampling of DFA pairs of five classes x schedules; both functions and both argument orders must answer exactly canon(D1)==canon(D2) and must return within the tick budget; evidence, not proof',
         'design_ref': 'DESIGN.md 5.9',
         'level_note': 'trusted: /verif/ref/iso.py (BFS canonical form, cross-checked against brute-force bijection search); termination is judged by a deterministic tick budget, never by wall clock',
@@ -156,11 +156,11 @@ PLANS = {
         'quick': {'rounds': 8, 'wall_cap_s': 300, 'replicas': 4, 'logging_replica': True},
         'thorough': {'rounds': 32, 'wall_cap_s': 3000, 'replicas': 4, 'logging_replica': True},
         'selftest': {'rounds': 1, 'wall_cap_s': 200, 'replicas': 2, 'logging_replica': True},
-        'rule': ('a bundle = one session spec (9-14 objects of all six kinds built from seeded specs over a 1-2 letter alphabet, then 36-60 calls drawn uniformly from a registry of ~90 pure operations: '
+        'rule': ('a bundle = one session spec (9-14 objects of all six kinds built from seeded specs over a 1-2 letter alphabet, then 36-60 calls drawn from a registry of ~175 public entry points (set-iterating ones weighted x3): step functions, right-linear conversions, object-level notebook checkers, dot / sigma / str printers, '
                  'acceptance tests, enumerators, minimisers, products, complement/reverse/prefix-free, conversions (nfa_to_dfa, dfa_to_regexp, regexp_to_nfa, cfg_to_chomsky and its phases, pda_to_cfg, PDA normal forms), '
-                 'printers, generate_language, accept/reject checkers and ~14 text-level check_* functions with correct, perturbed and ill-formed answers; results join the pool and become operands; a quarter of the sessions use the alphabet {0,1}; made objects get twins that differ in one component only (q0, F, start variable, or for regexps the symbol 0/1 versus the constant 0/1 - same printed form); 5% of the steps edit a made object in place, by hand or through an *_in_place library function) executed by 5 replicas: '
+                 'printers, generate_language, accept/reject checkers and ~40 text-level entry points of the notebooks with correct, perturbed and ill-formed answers, among them the check_*_language_from_file checkers, whose answer file the harness writes under one path per interpreter with modification times from a simulated file clock (a quarter of a second per write); results join the pool and become operands; a quarter of the sessions use the alphabet {0,1}; made objects get twins that differ in one component only (q0, F, start variable, or for regexps the symbol 0/1 versus the constant 0/1 - same printed form); 5% of the steps edit a made object in place, by hand or through an *_in_place library function) executed by 5 replicas: '
                  '4 fresh interpreters with different PYTHONHASHSEED plus one with GambaTools.enable_logging=True; inside each replica the session runs in a pristine fork and one call in three and every text-level checker call is re-executed alone '
-                 '(arguments rebuilt from their pre-call snapshots) in another pristine fork. One evaluation = one operation call. Oracles: every pool object is re-snapshotted after every step (argument integrity); the ambient settings must have their entry values after every call; sampled calls are repeated at once on the same objects and must give the same outcome; '
+                 '(arguments rebuilt from their pre-call snapshots) in another pristine fork. One evaluation = one operation call. Oracles: every pool object is re-snapshotted after every step (argument integrity); the ambient settings (the two library knobs, recursion limit, working directory, sys.path, warning filters, environment, sys.stdout) must have their entry values after every call; sampled calls are repeated at once on the same objects and must give the same outcome; '
                  'per-step outcome digests (exact language for DFA/NFA/regexp results, bounded language for CFG/PDA results, value for bools/sets, OK/not-OK for checkers, exception type) must agree across replicas, '
                  'between session and solo execution, and between logging on/off. distinct non-trivial = distinct (session, step) whose operand was produced by an earlier step or used before.'),
         'schedule_measure': 'distinct (session, hash seed, logging) executions',
@@ -168,7 +168,7 @@ PLANS = {
                                              'CFG and PDA results are compared on words of bounded length (<= 4 resp. <= 3)',
                                              'a consistent exception (e.g. dfa_make_total: RecursionError) is agreement, not a violation of this property'],
         'expected_probes': ['nontrivial_steps', 'solo_reexecutions', 'pda_call_with_truncated_closure', 'inplace_edit_between_calls', 'repeated_calls'],
-        'technique': 'deterministic simulation of replicas: one seeded operation history executed by several fresh interpreters (different PYTHONHASHSEED, logging on/off) and re-executed step-wise in pristine forks; differential oracle on language-level outcome digests plus snapshots after every step; ddmin over the step list inside the same two interpreters; replay files confirmed in fresh interpreters; twins, in-place edits and undecodable alphabets in the sessions',
+        'technique': 'deterministic simulation of replicas: one seeded operation history executed by several fresh interpreters (different PYTHONHASHSEED, logging on/off) and re-executed step-wise in pristine forks; differential oracle on language-level outcome digests plus snapshots after every step; ddmin over the step list inside the same two interpreters; replay files confirmed in fresh interpreters; twins, in-place edits and undecodable alphabets in the sessions; interpreter-wide ambient state checked after every call; answer files under a simulated file clock',
         'level_text': 'seeded sampling of call histories x hash seeds x logging; argument integrity is checked after every step in every replica, and replica / solo / logging agreement is checked on every step outcome; evidence, not proof',
         'design_ref': 'DESIGN.md 5.8',
         'level_note': 'trusted: outcome digests (reference canonical forms from /verif/ref), snapshots; only agreement is judged here, not correctness of the agreed value (that is the business of the other properties)',
